@@ -193,6 +193,7 @@ def run(chk):
     chk.require(bad_fields or True, "")
     inventory = []
     stores = []
+    attr_mut = []
     for rel, tree in iter_sources(chk):
         mod = "dep_logic." + rel[:-3].replace("/", ".")
         mod = mod.replace(".__init__", "")
@@ -213,6 +214,14 @@ def run(chk):
                             stores.append((mod, q, fn, n, a))
                 if isinstance(n, ast.Call) and ast.unparse(n.func) in ("object.__setattr__", "setattr"):
                     stores.append((mod, q, fn, n, None))
+                # in-place mutation of an attribute-held container: x.attr.append(...), del x.attr[i], x.attr[i] = v, x.attr += ...
+                if (isinstance(n, ast.Call) and isinstance(n.func, ast.Attribute) and n.func.attr in MUTATORS
+                        and isinstance(n.func.value, ast.Attribute) and not rel.startswith("tags/")):
+                    attr_mut.append((mod, q, fn, n, n.func.value))
+                if isinstance(n, (ast.Assign, ast.AugAssign, ast.Delete)) and not rel.startswith("tags/"):
+                    for t in (n.targets if isinstance(n, (ast.Assign, ast.Delete)) else [n.target]):
+                        if isinstance(t, ast.Subscript) and isinstance(t.value, ast.Attribute):
+                            attr_mut.append((mod, q, fn, n, t.value))
     chk.instance("R10.1", len(inventory))
     for mod, q, fn, kind in inventory:
         chk.ok("R10.1", key=(mod, q, kind), nontrivial=False)
@@ -336,6 +345,16 @@ def run(chk):
             chk.ok("R10.3", key=(mod, q, text))
         else:
             chk.fail("R10.3", f"{mod}:{q}:{text}", f"`{text}` mutates self outside a constructor and outside the lazy-cache idiom `if self._x is None: self._x = ...`")
+    for mod, q, fn, n, target in attr_mut:
+        chk.instance("R10.3")
+        leaf = q.split(".")[-1]
+        text = norm(ast.unparse(n))
+        base = target.value
+        if leaf in ("__init__", "__post_init__") and isinstance(base, ast.Name) and base.id == "self":
+            chk.ok("R10.3", key=(mod, q, text))
+        else:
+            chk.fail("R10.3", f"{mod}:{q}:mutates-{target.attr}", f"`{text[:90]}` mutates the container held in `.{target.attr}` in place outside a constructor; "
+                     f"the object may be shared (memoised result, child of another marker, aliased storage)")
     adhoc_state(chk, inventory)
     seeded_cache_fields(chk)
     chk.exhaustive = True
